@@ -100,6 +100,13 @@ func runLedgerMon(pid string, seed uint64, n int, out, stats string) {
 		if pid == "C05" {
 			fails = res.C05
 			agree += res.C05Checked
+			if len(res.C05Cases) > 0 {
+				c.Begin(21)
+				for _, cs := range res.C05Cases {
+					c.Op(cs[0], cs[1])
+				}
+				c.End(true, "candidate-auth")
+			}
 		}
 		if pid == "C03" {
 			fails = res.C03
